@@ -126,10 +126,12 @@ func updatePermittedAddrMap() (err error) {
 	if lastTime == 0 || len(permittedAddrMap) == 0 || lastTime < time.Now().Add(-time.Minute).Unix() {
 		lock.Lock()
 		defer lock.Unlock()
-		if err = bactor.UpdatePermittedAddrMap(permittedAddrMap); err != nil {
+		fresh := make(map[common.Address]bool)
+		if err = bactor.UpdatePermittedAddrMap(fresh); err != nil {
 			log.Debugf("updatePermittedAddrMap failed")
 			return
 		}
+		permittedAddrMap = fresh
 		lastTime = time.Now().Unix()
 	}
 	return
